@@ -447,7 +447,13 @@ def first_bad_varlist(block, enc, vps):
                              if not ks else "the variable of (trial, factor, level) = %r" % (ks[0],))
                     T = block.trials_per_sample()
                     over = any(b > T for _, b in block.map_block_trial_ranges(g, lambda s, e: (s, e)))
+                    under = any(a < 0 for a, _ in block.map_block_trial_ranges(g, lambda s, e: (s, e)))
+                    from sweetpea._internal.cross_block import AlignmentMode
                     sig = ("layout:varlist-window-overrun" if over else
+                           # POST_PREAMBLE: the window start is shifted by preamble_size() - within_block.preamble_size,
+                           # which is negative when the constraint's own block had the longer (alignment) preamble
+                           "layout:varlist-negative-start:post-preamble"
+                           if under and g is not None and getattr(block, "alignment", None) == AlignmentMode.POST_PREAMBLE else
                            "layout:varlist-complex-misindexed" if f.has_complex_window else "layout:varlist-outside-grid")
                     return (sig,
                             "%s: build_variable_lists for factor %d level %d within %s lists variable %d, which is %s"
